@@ -502,6 +502,83 @@ func main() {
 			}
 		}
 	}
+	// ---- a forged coinbase as the block's ONLY coinbase ----
+	// The trials above put the forgery next to the honest award, so the ledger's "one coinbase per
+	// block" rule refuses the block before the state machine sees it. A producer who forges leaves
+	// the honest award out: the block's only coinbase-flagged transaction pays the award amount
+	// in its first output (all the award rule looks at) and (a) spends a victim's output, (b)
+	// writes a key, without any signature. The state machine verifies coinbase-flagged
+	// transactions neither as user nor as timer transactions.
+	{
+		n := corpusNode
+		victim, thief := sn.K(0), sn.K(5)
+		award := n.Ledger.GenesisBlock.CalcAward(n.LedgerHeight() + 1)
+		for _, name := range []string{"sole-coinbase-spends-victim-output", "sole-coinbase-writes-key", "sole-coinbase-honest-shape"} {
+			y := &pb.Transaction{Version: 1, Coinbase: true, Desc: []byte("award"), Timestamp: 4243,
+				TxOutputs: []*protos.TxOutput{{ToAddr: []byte(thief.Address), Amount: award.Bytes()}}}
+			mustRefuse := true
+			switch name {
+			case "sole-coinbase-spends-victim-output":
+				ins, _, tot, err := n.State.SelectUtxos(victim.Address, new(big.Int).Add(award, big.NewInt(1)), false, false)
+				if err != nil || len(ins) == 0 {
+					continue
+				}
+				y.TxInputs = ins
+				y.TxOutputs = append(y.TxOutputs, &protos.TxOutput{ToAddr: []byte(thief.Address), Amount: new(big.Int).Sub(tot, award).Bytes()})
+			case "sole-coinbase-writes-key":
+				// cite the key's current version, as an honest writer would
+				rd := n.State.CreateXMReader()
+				cur, err := rd.Get("vb1", []byte("forged-by-coinbase"))
+				in := &protos.TxInputExt{Bucket: "vb1", Key: []byte("forged-by-coinbase")}
+				if err == nil && cur != nil && cur.RefTxid != nil {
+					in.RefTxid, in.RefOffset = cur.RefTxid, cur.RefOffset
+				}
+				y.TxInputsExt = []*protos.TxInputExt{in}
+				y.TxOutputsExt = []*protos.TxOutputExt{{Bucket: "vb1", Key: []byte("forged-by-coinbase"), Value: []byte("unsigned")}}
+			case "sole-coinbase-honest-shape":
+				mustRefuse = false // the oracle can say yes: exactly what a miner's award looks like
+			}
+			y.Txid, _ = txhash.MakeTransactionID(y)
+			y, _ = sn.Wire(y)
+			acc, skipped, desc := func() (accepted bool, skipped bool, desc string) {
+				defer func() {
+					if p := recover(); p != nil {
+						accepted, skipped, desc = false, false, "PANIC: "+fmt.Sprint(p)
+					}
+				}()
+				tw, err := n.Twin()
+				if err != nil {
+					return false, true, err.Error()
+				}
+				defer tw.Drop()
+				blk, err := tw.FormatBlock(tw.StateTip(), tw.LedgerHeight()+1, thief, 77778, []*pb.Transaction{y}, false)
+				if err != nil {
+					return false, true, err.Error()
+				}
+				// the engine's receive path: award rule, block verification, ConfirmBlock, Walk
+				if err := tw.ProcBlock(blk); err != nil {
+					return false, false, err.Error()
+				}
+				return string(tw.StateTip()) == string(blk.Blockid), false, "applied"
+			}()
+			if skipped {
+				continue
+			}
+			r.Case("block|sole-coinbase|"+name, true)
+			r.Count("attacks", 1)
+			r.Count("attacks.sole-coinbase", 1)
+			if os.Getenv("C07_DEBUG") != "" {
+				fmt.Fprintf(os.Stderr, "c07 debug: %s -> accepted=%v %s\n", name, acc, desc)
+			}
+			if acc && mustRefuse {
+				r.Violation("attack-accepted|unsigned-in-block|"+name, fmt.Sprintf("a block whose only coinbase-flagged transaction pays the award amount in its first output and, WITHOUT ANY SIGNATURE, %s is accepted through the engine's receive path and applied", name),
+					map[string]string{"attack": name, "victim": victim.Address})
+			}
+			if !acc && !mustRefuse {
+				r.Violation("corpus|honest-award-only-block-refused", "a block holding just an honest-shaped award is refused: "+desc, map[string]string{"attack": name})
+			}
+		}
+	}
 	// ---- digest injectivity ----
 	for k, group := range byDigest {
 		r.Count("digest.groups", 1)
